@@ -617,11 +617,18 @@ func (db *DB) MaxLTX() (minTXID, maxTXID ltx.TXID, err error) {
 
 // FileInfo returns the cached file stats for the database file when it was initialized.
 func (db *DB) FileInfo() os.FileInfo {
+	// init() rewrites the cached stats under db.mu when a closed DB is
+	// initialized again while other goroutines (e.g. an upload in the file
+	// replica client) are reading them.
+	db.mu.RLock()
+	defer db.mu.RUnlock()
 	return db.fileInfo
 }
 
 // DirInfo returns the cached file stats for the parent directory of the database file when it was initialized.
 func (db *DB) DirInfo() os.FileInfo {
+	db.mu.RLock()
+	defer db.mu.RUnlock()
 	return db.dirInfo
 }
 
